@@ -171,6 +171,45 @@ def main(repo='/repo', dest=None):
 
     sm, p_sm = parse(repo, 'chython/files/daylight/smarts.py')
     cx_src = compiled_pattern(module_assign(sm, 'cx_radicals', p_sm), p_sm, 'cx_radicals')
+    # ---- branch order of the comparison methods, of calc_labels and of from_symbol / from_atom: the tests of every `if` / `elif`
+    #      in source order (pre-order), as normalised source text, and the right-hand sides assigned to `hybridization`
+    def if_tests(fn):
+        out = []
+        def visit(stmts):
+            for st in stmts:
+                if isinstance(st, ast.If):
+                    out.append(ast.unparse(st.test))
+                    visit(st.body)
+                    visit(st.orelse)
+                elif isinstance(st, (ast.For, ast.While, ast.With, ast.Try)):
+                    visit(st.body)
+                    visit(getattr(st, 'orelse', []))
+        visit(fn.body)
+        if not out:
+            raise TranslatorError(f'{fn.name}: no if statement found')
+        return out
+    eq_tests = [(c, if_tests(method(q, c, '__eq__', p_q))) for c in ('QueryElement', 'AnyElement', 'ListElement', 'AnyMetal')]
+    sym_tests = if_tests(method(q, 'QueryElement', 'from_symbol', p_q))
+    fa = method(q, 'QueryElement', 'from_atom', p_q)
+    fa_tests = if_tests(fa)
+    fa_assign = [ast.unparse(n) for n in ast.walk(fa) if isinstance(n, ast.Assign) and isinstance(n.targets[0], ast.Attribute)
+                 and getattr(n.targets[0].value, 'id', None) == 'query']
+    fa_assign = sorted(fa_assign)
+    bd0, p_bd0 = parse(repo, 'chython/containers/bonds.py')
+    qb_tests = if_tests(method(bd0, 'QueryBond', '__eq__', p_bd0))
+    mc, p_mc = parse(repo, 'chython/containers/molecule.py')
+    cl = method(mc, 'MoleculeContainer', 'calc_labels', p_mc)
+    cl_tests = if_tests(cl)
+    cl_hyb = []
+    def hyb_assigns(stmts):
+        for st in stmts:
+            if isinstance(st, ast.Assign) and getattr(st.targets[0], 'id', None) == 'hybridization':
+                cl_hyb.append(ast.unparse(st.value))
+            for fld in ('body', 'orelse'):
+                if hasattr(st, fld) and isinstance(getattr(st, fld), list):
+                    hyb_assigns(getattr(st, fld))
+    hyb_assigns(cl.body)
+
     bd, p_bd = parse(repo, 'chython/containers/bonds.py')
     init = method(bd, 'QueryBond', '__init__', p_bd)
     tuples = set()
@@ -218,6 +257,16 @@ def main(repo='/repo', dest=None):
         f'Definition ring_sizes_guards : list string := {lst(g_ring, cs)}.',
         '(* smarts.py: pattern text of the CXSMARTS radical block *)',
         f'Definition smarts_cx_radicals_src : string := {cs(cx_src)}.',
+        '(* the tests of every if / elif of the comparison methods, in source order *)',
+    ] + [f'Definition eq_tests_{c} : list string := {lst(t, cs, per_line=3)}.' for c, t in eq_tests] + [
+        f'Definition eq_tests_QueryBond : list string := {lst(qb_tests, cs, per_line=3)}.',
+        '(* QueryElement.from_symbol / from_atom: tests in source order, assignments to the query (sorted) *)',
+        f'Definition from_symbol_tests : list string := {lst(sym_tests, cs)}.',
+        f'Definition from_atom_tests : list string := {lst(fa_tests, cs, per_line=3)}.',
+        f'Definition from_atom_assigns : list string := {lst(fa_assign, cs, per_line=2)}.',
+        '(* MoleculeContainer.calc_labels: tests in source order and the values assigned to `hybridization` *)',
+        f'Definition calc_labels_tests : list string := {lst(cl_tests, cs, per_line=3)}.',
+        f'Definition calc_labels_hyb_values : list string := {lst(cl_hyb, cs)}.',
         '(* QueryBond: allowed orders *)',
         f'Definition qbond_orders : list Z := {lst(orders, zraw)}.',
         ''])
